@@ -14,6 +14,7 @@
 //!   s / S            order-insensitive digest: every section sorted (s: hashes, S: full text)
 //!   R<line>          one REPL line: CommandRunner::try_run_command (real `save` etc.), else interpret + push_to_history
 //!   L<path>          content of the file at <path> (what `save` wrote)
+//!   A<code>          parse only: numbat::verif::syntax::dump_ast (statement trees, or ERR <kind>)
 //!   U<module>        can `use <module>` still be imported on a CLONE, and what does it add?
 //! output line: one item per I/F/J/D/d/U field, separated by TAB (escaped the same way)
 //!   I → ok|<value or ->|<type or ->|<prints>      or  err|<stage>:<Kind>|<prints>   or  PANIC
@@ -225,6 +226,23 @@ pub fn digest_sections(ctx: &Context) -> Vec<(&'static str, String)> {
             }
         }
     }
+    // raw values of all globals as stored by the VM (hook numbat::verif::qty::raw_global):
+    // f64 bit patterns and unit for quantities, canonical rendering otherwise
+    let bits: Vec<String> = names
+        .iter()
+        .map(|v| {
+            catch_unwind(AssertUnwindSafe(|| match numbat::verif::qty::raw_global(ctx, v) {
+                Some(numbat::value::Value::Quantity(q)) => format!(
+                    "{v}={:016x}<{}>",
+                    q.unsafe_value().to_f64().to_bits(),
+                    q.unit()
+                ),
+                Some(other) => format!("{v}={}", numbat::verif::vm::value_repr(&other)),
+                None => format!("{v}=?"),
+            }))
+            .unwrap_or_else(|_| format!("{v}=PANIC"))
+        })
+        .collect();
     vec![
         ("imp", imp.join(",")),
         ("vars", vars.join(",")),
@@ -233,12 +251,16 @@ pub fn digest_sections(ctx: &Context) -> Vec<(&'static str, String)> {
         ("dims", dims.join(",")),
         ("ureps", unitreps.join(",")),
         ("vals", vals.join(",")),
+        ("bits", bits.join(",")),
     ]
 }
 
 pub fn digest(ctx: &Context, full: bool) -> String {
+    // the insertion-ordered digest (tags d/D/U) has no `bits` section: it is also what the Coq
+    // miniature model prints; f64 bit patterns are part of the sorted digest (tags s/S)
     digest_sections(ctx)
         .into_iter()
+        .filter(|(k, _)| *k != "bits")
         .map(|(k, v)| {
             if full {
                 format!("{k}=[{v}]")
@@ -397,6 +419,13 @@ fn run_case(line: &str) -> String {
                     Ok(Err(_)) => outs.push("cmderr".into()),
                     Err(_) => outs.push("PANIC".into()),
                 }
+            }
+            "A" => {
+                let code = unesc(rest);
+                outs.push(
+                    catch_unwind(AssertUnwindSafe(|| numbat::verif::syntax::dump_ast(&code)))
+                        .unwrap_or_else(|_| "PANIC".into()),
+                );
             }
             "L" => {
                 outs.push(std::fs::read_to_string(unesc(rest)).unwrap_or_else(|e| format!("@@IOERR {e}")));
